@@ -725,6 +725,22 @@ def run_S5(cx, job):
                         sig(v), renamed=True)
         cx.acc.sample('S5', v)
     if job['shard'] == 0:
+        # byte strings (YAML's !!binary; a bytes object handed to from_dict
+        # or RuleDefault) are not text rules, whatever they spell
+        for raw in (b'@', b'', b'not !', b'(@)', b'True:True', b'role:a',
+                    b'\xff', [b'@'], [[b'@']]):
+            vr = repr(raw)
+            _value_must_not_allow(cx, 'S5', 'from_dict',
+                                  lambda: P.Rules.from_dict({'p': raw}), vr,
+                                  'bytes')
+            _value_must_not_allow(cx, 'S5', 'rule-default',
+                                  lambda: P.Rules(
+                                      {'p': P.RuleDefault('p', raw).check}),
+                                  vr, 'bytes')
+            text = yaml.safe_dump({'p': raw, 'q': 'role:a'})
+            _value_must_not_allow(cx, 'S5', 'yaml',
+                                  lambda: P.Rules.load(text), vr, 'bytes')
+            _file_route(cx, text, 'bytes')
         for sp in YAML_SPELLINGS:
             text = 'p: %s\nq: "role:a"\n' % sp if not sp.startswith('- ') \
                 else 'p:\n  %s\nq: "role:a"\n' % sp
